@@ -59,7 +59,10 @@ type Cfg struct {
 	ServerVer  string // server version string (<= 50 bytes)
 	HeaderSize []byte // optional explicit post-header size table (else default)
 	ExtraData  []byte // rows v2 extra data (without the 2 length bytes)
-	HeaderLen  byte   // common header length announced (0 -> 19)
+	// TableMapTrailer: optional metadata a MySQL 8.0 master appends behind the NULL
+	// bitmap of every table map (used for tables without an Optional of their own)
+	TableMapTrailer []byte
+	HeaderLen       byte // common header length announced (0 -> 19)
 	// PadOnes sets the unused high bits of the last byte of every bitmap
 	// (presence, NULL, nullability) to 1, as a server does after
 	// bitmap_set_all; otherwise they are 0.
